@@ -412,9 +412,8 @@ func c12Spaces(tier string) []*explore.Space {
 	// predicate: node-set expressions whose evaluation keeps counters
 	for i, e := range s1 {
 		if i%4 == 0 {
-			wrapped = append(wrapped, &gen.Filter{Primary: &gen.Group{E: e}, Preds: []gen.Expr{gen.N(2)}}, &gen.Filter{Primary: &gen.Group{E: e}, Preds: []gen.Expr{gen.F("last")}})
-			// ((E)[p][q] is not used: the engine's FilterExpr takes one predicate and the
-			// top-level parser ignores what follows — outside every listed property)
+			wrapped = append(wrapped, &gen.Filter{Primary: &gen.Group{E: e}, Preds: []gen.Expr{gen.N(2)}}, &gen.Filter{Primary: &gen.Group{E: e}, Preds: []gen.Expr{gen.F("last")}},
+				&gen.Filter{Primary: &gen.Group{E: e}, Preds: []gen.Expr{gen.F("true"), gen.N(1)}})
 		}
 	}
 	for _, st := range []gen.Step{gen.Ch("*"), gen.Ch("a"), gen.Ch("node()")} {
@@ -465,7 +464,7 @@ func c12Spaces(tier string) []*explore.Space {
 func init() {
 	explore.Register(&explore.Property{
 		ID: "C12", Level: "model_checking",
-		Rule: "order part: every flat path (child/attribute/self steps, <= 3-4 steps, relative and absolute, also with the predicates C02/C03 allow) and every single predicate-free descendant step, on every document of T(<=N) and the multi-parent universe from every context, must yield exactly the reference sequence (document order, no repeats) through Select and through Evaluate. protocol part: the NodeIterator of every node-set expression of the slices S1, S2, P1, U2 is explored as a state machine — states are (results consumed, exhausted) positions, transitions are MoveNext/Current calls; the walk with 3 extra MoveNext after the first false, and (R2) every operation word over {MoveNext, Current} up to length len+3, are checked against the sequence model, plus seq(Evaluate)=seq(Select), count(E)=len, reverse(E)=reversed; non-trivial = non-empty sequence; distinct = distinct expressions",
+		Rule: "order part: every flat path (child/attribute/self steps, <= 3-4 steps, relative and absolute, also with the predicates C02/C03 allow) and every single predicate-free descendant step, on every document of T(<=N) and the multi-parent universe from every context, must yield exactly the reference sequence (document order, no repeats) through Select and through Evaluate. protocol part: the NodeIterator of every node-set expression of the slices S1, S2, P1, U2 is explored as a state machine — states are (results consumed, exhausted) positions, transitions are MoveNext/Current calls; the walk with 3 extra MoveNext after the first false, and (R2) every operation word over {MoveNext, Current} up to length len+3, are checked against the sequence model, plus seq(Evaluate)=seq(Select), count(E)=len, reverse(E)=reversed, the count and the Evaluate sequence asked a second time of the same compiled expression; wrappers reverse(E), (E), (E)[true()], (E)[n], (E)[last()], (E)[true()][1], step[bool][n] go through the same walk; non-trivial = non-empty sequence; distinct = distinct expressions",
 		Assumptions:    []string{"hand-written reference evaluator (order part)", "lawful NodeNavigator", "bounded trees; words bounded by len+3"},
 		Budget:         budget(90*time.Second, 30*time.Minute),
 		MinRefOutcomes: 2,
